@@ -96,6 +96,10 @@ def parseSegs : List String → Option (List Seg)
       pure (Seg.index v :: rest)
   | _ => none
 
+def splitBar : List String → List String → List (List String) → List (List String)
+  | [], cur, acc => (cur.reverse :: acc).reverse
+  | t :: r, cur, acc => if t == "|" then splitBar r [] (cur.reverse :: acc) else splitBar r (t :: cur) acc
+
 def handle : List String → String
   | "js" :: toks =>
       match parseJs (toks.length + 1) toks with
@@ -109,6 +113,30 @@ def handle : List String → String
             | none => "fail"
           l ++ " " ++ e ++ " " ++ (if Frag.handled prog then "h1" else "h0")
       | _ => "bad-op"
+  | "interp" :: ck :: rest =>
+      -- parts separated by `|`: `R first segs…` or `J js-tokens…`
+      let groups := (splitBar rest [] []).filter (fun g => !g.isEmpty)
+      let parts : Option (List Part) := groups.mapM (fun g => match g with
+        | "R" :: f :: segs => do
+            let first ← stringOfHex f
+            let ss ← parseSegs segs
+            pure (Part.ref first ss)
+        | "J" :: toks => match parseJs (toks.length + 1) toks with
+            | some (prog, []) => some (Part.js prog)
+            | _ => none
+        | _ => none)
+      match stringOfHex ck, parts with
+      | some c, some ps =>
+          let l := match interpDeps c ps with
+            | .ok d => "ok:" ++ hexList d.eraseDups
+            | .error .attributeError => "err:AttributeError"
+            | .error .keyError => "err:KeyError"
+          let e := match interpReads 4000 ps with
+            | some rs => "reads:" ++ hexList rs.eraseDups
+            | none => "fail"
+          let h := ps.all (fun p => match p with | .js prog => Frag.handled prog | .ref _ _ => true)
+          l ++ " " ++ e ++ " " ++ (if h then "h1" else "h0")
+      | _, _ => "bad-op"
   | "pref" :: ck :: first :: segs =>
       match stringOfHex ck, stringOfHex first, parseSegs segs with
       | some c, some f, some ss => "ok:" ++ hexList (paramDeps c f ss)
